@@ -261,6 +261,58 @@ class Ctx:
         for b in state["others"].values():
             self._record_failure(name, b["spec"], b["clause"], b["detail"], 1)
 
+    # -- stateful (model-based) search ---------------------------------------
+    def machine(self, name: str, make_machine: Callable[[dict, "Stats"], Any], total: int, steps: int) -> None:
+        """`make_machine(state, stats)` returns a RuleBasedStateMachine subclass whose rules
+        append to their own operation log and call `state['note'](ops, violation)` before
+        re-raising a Violation, so that the shrunk operation sequence becomes the replay spec."""
+        import hypothesis
+        from hypothesis import HealthCheck, Phase, settings
+        from hypothesis.stateful import run_state_machine_as_test
+
+        n = self.share(total)
+        if n <= 0:
+            return
+        sd = derive_seed(self.seed, self.prop, self.tier, name, self.shard)
+        self.shard_seeds[name] = sd
+        state = {"best": None, "clause": None, "others": {}, "first_t": None, "n_fail": 0}
+
+        def note(spec, v):
+            return self._note_fail(state, spec, v.clause, v.detail)
+
+        def budget_left():
+            return state["first_t"] is None or time.monotonic() - state["first_t"] <= self.shrink_budget_s
+
+        state["note"] = note
+        state["budget_left"] = budget_left
+        M = make_machine(state, self.stats)
+        st_settings = settings(
+            max_examples=n, stateful_step_count=steps, database=None, deadline=None, derandomize=False, report_multiple_bugs=False,
+            phases=[Phase.generate, Phase.shrink],
+            suppress_health_check=[HealthCheck.too_slow, HealthCheck.data_too_large, HealthCheck.large_base_example, HealthCheck.filter_too_much],
+            print_blob=False,
+        )
+        import contextlib
+        import io
+
+        try:
+            with contextlib.redirect_stdout(io.StringIO()):  # hypothesis prints the failing steps; the replay file is our record
+                run_state_machine_as_test(hypothesis.seed(sd)(M), settings=st_settings)
+        except Violation:
+            pass
+        except HarnessError:
+            raise
+        except hypothesis.errors.Flaky:
+            pass
+        except hypothesis.errors.HypothesisException as e:
+            if state["best"] is None:
+                raise HarnessError(f"hypothesis error in {self.prop}/{name}: {e!r}")
+        if state["best"] is not None:
+            b = state["best"]
+            self._record_failure(name, b["spec"], b["clause"], b["detail"], state["n_fail"])
+        for b in state["others"].values():
+            self._record_failure(name, b["spec"], b["clause"], b["detail"], 1)
+
     def _note_fail(self, state: dict, spec: Any, clause: str, detail: str) -> bool:
         """Record a failing case.  Returns True if it belongs to the clause being
         shrunk (the first one seen by this test): only then is the exception
